@@ -95,6 +95,19 @@ CHECKS = {
                 "TranscriptNaming; uniqueness over the concatenation of all chromosomes relies on the chromosome prefix (two-storage step).",
         "design": "3 C17",
     },
+    "C18": {
+        "text": "Bounded symbolic verification: border dinucleotides of <=3 introns chosen by the solver over the complete relevant "
+                "alphabet (5x5 pairs per intron incl. canonical on +, on -, neither), symbolic locus offset, and the HISTORY of <=3 canonical "
+                "queries (intron subset x strand, any order) chosen by the solver: z3/case split proves that check_sites_are_canonical "
+                "with its per-locus memo equals the pure function of (sequence, introns, strand) for every history; get_intron_strand, "
+                "StrandDetector.get_strand/get_clean_strand (every query order), AlignmentCollector.get_assignment_strand (symbolic type "
+                "and polyA positions) and the strand/report block of the real construct_fl_isoforms (symbolic read count, all report "
+                "levels, polyA/polyT ends) are proved against the majority/evidence specification.",
+        "note": "Trusted: z3, symx proxies. The sequence alphabet is a finite case split (a complete one for the code, which only looks "
+                "at the two border dinucleotides). construct_fl_isoforms runs on a directly constructed constructor state with a stub "
+                "assigner. '.'-stranded canonical queries and more than 3 introns/queries are outside the claim.",
+        "design": "3 C18",
+    },
 }
 
 NOT_BUILT = "check not built yet (build in progress, see DESIGN.md section 5); no claim is made"
